@@ -111,7 +111,7 @@ class System(BigSMILESbase):
         while text.find(".|") >= 0:
             # text = text[text.find(".|") :].strip()
             end_pos = text.find("|", text.find(".|") + 2) + 1
-            if end_pos < 0:
+            if end_pos <= 0:
                 raise RuntimeError(
                     f"System {text} contains an opening '.|' for a stochastic object, but no closing '|'."
                 )
